@@ -60,7 +60,8 @@ class RequestChannelCommon(StreamHandler, Publisher, Subscription, Disposable, m
 
     def frame_received(self, frame: Frame):
         if isinstance(frame, CancelFrame):
-            self.subscriber.subscription.cancel()
+            if self.subscriber.subscription is not None:
+                self.subscriber.subscription.cancel()
             self.mark_completed_and_finish(sent=True)
         elif isinstance(frame, RequestNFrame):
             if self.subscriber.subscription is not None:
